@@ -371,6 +371,9 @@ fn flags(schema: &[TableC], st: &St, kind: &str, pre: &Dump, h: &Hctx, check_ix:
         if h.cascaded { f.push("after-cascade".into()); }
         if h.updated && spurious && matches!(kind, "pk" | "unique") { f.push("after-update".into()); }
     }
+    // a missed duplicate of a COMPOSITE key after an UPDATE earlier in the history: UPDATE does not maintain
+    // composite-key indexes (listed defect), the uniqueness probe of a later INSERT then misses the moved row
+    if !spurious && h.updated && composite && matches!(kind, "pk" | "unique") && matches!(st, St::Insert { .. }) { f.push("after-update".into()); }
     let maxrows = pre.iter().map(|(_, r)| r.len()).max().unwrap_or(0);
     if maxrows >= 8 { f.push("ge8rows".into()); }
     f.join(",")
